@@ -8,6 +8,7 @@ mod stylefmt;
 mod treegen;
 mod c02;
 mod c18;
+mod c15;
 
 use common::*;
 
@@ -55,6 +56,7 @@ fn main() {
     let extra = match prop.as_str() {
         "C02" => c02::run(&cfg, &mut out),
         "C18" => c18::run(&cfg, &mut out),
+        "C15" => c15::run(&cfg, &mut out),
         _ => {
             eprintln!("unknown property {prop}");
             std::process::exit(2)
